@@ -101,6 +101,13 @@ class Ctx:
                 "extra": self.extra}
 
 
+def safe_garbage(rng, n):
+    """random bytes for files/blobs that will be fed to pickle: without the opcodes LONG_BINPUT ('r') and PUT ('p'),
+    which make the unpickler resize its memo to an index taken from the data (a random 4-byte index allocates up to
+    64 GB - observed: a shard was killed by the kernel's OOM killer at 35 GB)."""
+    return bytes(b if b not in (0x72, 0x70) else 0x21 for b in (rng.randrange(256) for _ in range(n)))
+
+
 def exc_site(exc):
     """Innermost frame of pymoca (or tools/) in the traceback: 'file:function' (no line)."""
     site = None
@@ -116,6 +123,14 @@ def exc_sig(exc):
 
 
 def main(argv):
+    if not os.environ.get("VERIF_NO_RLIMIT") and argv[0] not in ("--meta", "--prepare"):
+        # safety net: a runaway allocation becomes a MemoryError in this shard instead of an OOM kill of the machine
+        import resource
+        lim = int(os.environ.get("VERIF_RLIMIT_GB", "12")) << 30
+        try:
+            resource.setrlimit(resource.RLIMIT_AS, (lim, lim))
+        except (ValueError, OSError):
+            pass
     if argv[0] == "--meta":
         mod = importlib.import_module("checks." + argv[1])
         tier = argv[2]
